@@ -65,8 +65,10 @@ def run(ctx):
     def g_str(r):
         return "".join(r.choice(IDC) for _ in range(r.choice([0, 1, 1, 3, 8])))
 
+    id_lengths = [[1, 2, 5, 9, 10, 11, 14]]
+
     def g_id(r):
-        return "".join(r.choice(IDC) for _ in range(r.choice([1, 2, 5, 9, 10, 11, 14])))
+        return "".join(r.choice(IDC) for _ in range(r.choice(id_lengths[0])))
 
     GEN = {
         "str": g_str, "id": g_id, "int": lambda r: r.choice([0, 1, -3, 7, 10 ** 6, r.randint(-50, 50)]), "float": lambda r: r.choice([0.0, 1.5, -2.25, 1e-3, float(r.randint(-9, 9))]),
@@ -122,9 +124,19 @@ def run(ctx):
                 cols.append(RaggedArray([np.array(v, dtype=int) for v in vals]) if vals else RaggedArray(np.zeros(0, dtype=int), np.zeros(0, dtype=int)))
             elif kind == "iv":
                 cols.append(dt.Interval([v[0] for v in vals], np.array([v[1] for v in vals], dtype=int), np.array([v[2] for v in vals], dtype=int)))
+            elif kind in ("str", "id", "str1", "seqq") and vals and text_columns_as[0] != "list":
+                # the text column is handed over as an encoded array (the column of another table, the result of a computation) instead of a list of
+                # strings; its codes may be held in any integer type
+                from bionumpy.encoded_array import EncodedArray, EncodedRaggedArray, BaseEncoding
+                codes = np.array([ord(ch) for v in vals for ch in v], dtype={"encoded": np.uint8, "encoded-wide-codes": text_wide_dtype[0]}[text_columns_as[0]])
+                cols.append(EncodedRaggedArray(EncodedArray(codes, BaseEncoding), [len(v) for v in vals]))
+                ctx.count("text_columns_given_as_encoded_arrays")
             else:
                 cols.append(list(vals))
         return cls(*cols)
+
+    text_columns_as = ["list"]
+    text_wide_dtype = [np.int64]
 
     def model_rows(spec, rows):
         out = []
@@ -186,6 +198,10 @@ def run(ctx):
         n = r.choice([0, 1, 1, 2, 3, 6])
         r.all_empty_reads = tname == "SequenceEntryWithQuality" and r.random() < 0.15       # reads trimmed to nothing
         qual_as_text[0] = r.random() < 0.4
+        text_columns_as[0] = r.choice(["list", "list", "list", "encoded", "encoded-wide-codes"])
+        # identifiers of a few neighbouring lengths (chr1, chr10, chrX ...): unequal rows whose lengths still add up like equal ones are common then
+        id_lengths[0] = r.choice([[1, 2, 5, 9, 10, 11, 14], [1, 2, 5, 9, 10, 11, 14], [1, 2, 3], [3, 4, 5], [4, 5]])
+        text_wide_dtype[0] = r.choice([np.int64, np.int16, np.uint16, np.int32])
         rows = [gen_row(r, spec) for _ in range(n)]
         t = build(cls, spec, rows)
         model = model_rows(spec, rows)
@@ -205,7 +221,7 @@ def run(ctx):
             ops = ["slice", "mask", "fancy", "concat", "iterate", "tolist_roundtrip", "replace", "todict", "pandas", "len", "replace_wrong_length"]
             if n:
                 ops += ["int", "int"]
-            if any(k in ("int", "float") for _, k in spec):
+            if any(k in ("int", "float", "strand") for _, k in spec):
                 ops.append("sort_by")
             if tname in ("Interval", "BedGraph", "Dyn", "LocationEntry"):
                 ops.append("add_fields")
@@ -265,7 +281,7 @@ def run(ctx):
                         ctx.violation("%s/operand-mutated" % opkey, "np.concatenate changed its second operand", wit)
                     history.append(["concat", [list(map(str, x)) for x in rows2]])
                 elif op == "sort_by":
-                    f = r.choice([fn for fn, k in spec if k in ("int", "float")])
+                    f = r.choice([fn for fn, k in spec if k in ("int", "float", "strand")])       # a one-symbol column (strand) sorts by its alphabet order '+', '-', '.'
                     j = [fn for fn, _ in spec].index(f)
                     res = t.sort_by(f)
                     g = observed_rows(res, spec)
